@@ -352,15 +352,6 @@ pub fn vx_children_live(n: &rowan::SyntaxNode) -> (r: VxLiveIter<rowan::SyntaxEl
 impl VxDisplay for rowan::SyntaxText {
     open spec fn display_spec(&self) -> Seq<char> { self@ }
 }
-/// `Display for SyntaxElement` (NodeOrToken) writes the text of the node or token
-impl VxDisplay for rowan::SyntaxElement {
-    open spec fn display_spec(&self) -> Seq<char> { rowan::tree_text(rowan::elem_tree(*self)) }
-}
-/// `Display for SyntaxNode` writes the text of the subtree
-impl VxDisplay for rowan::SyntaxNode {
-    open spec fn display_spec(&self) -> Seq<char> { rowan::tree_text(self.tree()) }
-}
-
 /// R-method-map (unit deb822edit): `node.into()` (impl From<SyntaxNode> for SyntaxElement) => vx_node_into(node)
 pub fn vx_node_into(n: rowan::SyntaxNode) -> (r: rowan::SyntaxElement)
     ensures r == rowan::NodeOrToken::<rowan::SyntaxNode, rowan::SyntaxToken>::Node(n)
